@@ -754,7 +754,7 @@ func diaCase(g *hc.Gen, o *hc.Out, dir string) {
 	f := diaFormats[g.Intn(len(diaFormats))]
 	d := genOpts(g, f)
 	d.allowUneven = false
-	d.enc = []text.Encoding{text.UTF8, text.UTF8, text.UTF8M, text.UTF16BEM, text.UTF16LEM, text.SJIS}[g.Intn(6)]
+	d.enc = []text.Encoding{text.UTF8, text.UTF8, text.UTF8M, text.UTF16BEM, text.UTF16LEM, text.UTF16, text.UTF16LE, text.UTF16BE, text.SJIS}[g.Intn(9)]
 	if f == option.JSON || f == option.JSONL {
 		d.enc = text.UTF8
 		d.pretty = false // FileInfo.PrettyPrint is not detected on load: a pretty file is rewritten compact
@@ -791,10 +791,20 @@ func diaCase(g *hc.Gen, o *hc.Out, dir string) {
 		// there is nothing to keep); CR is white space for the JSON loader
 		withEnd = true
 	}
+	// how the import encoding is named: exactly, by its generic family (UTF8 finds a byte order mark,
+	// UTF16 finds the byte order), or not at all (AUTO); by the session flag or as the argument of a
+	// table object
 	importEnc := d.enc
-	if d.enc != text.SJIS && g.Intn(2) == 0 {
-		importEnc = text.AUTO
+	switch g.Intn(3) {
+	case 0:
+		if d.enc != text.SJIS {
+			importEnc = text.AUTO
+		}
+	case 1:
+		importEnc = genericEncoding(d.enc)
 	}
+	diaViaTableObject = g.Intn(3) == 0 && (f == option.CSV || f == option.TSV || f == option.LTSV || f == option.FIXED)
+	defer func() { diaViaTableObject = false }()
 	if f == option.FIXED {
 		u := t.clone()
 		u.rows = append(u.rows, append([]cell(nil), u.rows[1]...))
@@ -818,6 +828,44 @@ func diaCase(g *hc.Gen, o *hc.Out, dir string) {
 // recorded the dialect runs keep the session's line break equal to the file's for these two formats;
 // set to true to check it.
 const jsonLineBreakChecked = true
+
+// diaViaTableObject: the updated table is named by a table object that carries the import settings
+// (CSV(delimiter, file, encoding, no_header), FIXED(positions, file, encoding, no_header),
+// LTSV(file, encoding)); the session keeps its default import settings
+var diaViaTableObject bool
+
+// genericEncoding: the family name under which csvq refines the encoding from the file
+func genericEncoding(e text.Encoding) text.Encoding {
+	switch e {
+	case text.UTF8, text.UTF8M:
+		return text.UTF8
+	case text.UTF16, text.UTF16BE, text.UTF16BEM, text.UTF16LEM:
+		return text.UTF16
+	}
+	return e
+}
+
+// concreteEncoding: what a generic name stands for when it is written
+func concreteEncoding(e text.Encoding) text.Encoding {
+	if e == text.UTF16 {
+		return text.UTF16BE
+	}
+	return e
+}
+
+func tableObject(fname string, d opts, enc text.Encoding) string {
+	file := option.QuoteIdentifier(fname)
+	e := option.QuoteString(encName(enc))
+	switch d.format {
+	case option.CSV, option.TSV:
+		return fmt.Sprintf("CSV(%s, %s, %s, %v)", option.QuoteString(string(d.delim)), file, e, d.withoutHeader)
+	case option.FIXED:
+		return fmt.Sprintf("FIXED(%s, %s, %s, %v)", option.QuoteString(posString(d.positions, d.singleLine)), file, e, d.withoutHeader)
+	case option.LTSV:
+		return fmt.Sprintf("LTSV(%s, %s)", file, e)
+	}
+	return file
+}
 
 // setOppositeSession: every attribute FileInfo.ExportOptions carries, set to something else than the file has
 func setOppositeSession(p *hc.Proc, d opts) {
@@ -868,16 +916,30 @@ func diaRun(o *hc.Out, dir string, t *table, d opts, withEnd bool, importEnc tex
 	if headerWritten(d) {
 		key, upd = t.header[0], t.header[1]
 	}
-	p := importProc(dir, d, importEnc)
+	// the file must load as the table under this way of naming its encoding (UTF16 cannot tell a
+	// little endian file without byte order mark; AUTO guesses): otherwise there is nothing to keep
+	if v0, e0 := realLoad(dir, fname, orig, d, importEnc, false); e0 != nil || !fromView(v0).equal(expected(t, d)) {
+		o.Count("dia:skipped:does_not_load_as_" + encName(importEnc) + ":" + encName(d.enc))
+		o.Case("c02.nop", "ok")
+		return
+	}
+	target := option.QuoteIdentifier(fname)
+	var p *hc.Proc
+	if diaViaTableObject {
+		p = hc.NewProc(dir)
+		target = tableObject(fname, d, importEnc)
+	} else {
+		p = importProc(dir, d, importEnc)
+	}
 	_ = p.P.Tx.SetFlag(option.QuietFlag, true)
 	if sessionOpposite {
 		setOppositeSession(p, d)
 	}
-	_, uerr := p.Exec(fmt.Sprintf("UPDATE %s SET %s = 'NEW' WHERE %s = 'r1'; COMMIT;", option.QuoteIdentifier(fname), option.QuoteIdentifier(upd), option.QuoteIdentifier(key)))
+	_, uerr := p.Exec(fmt.Sprintf("UPDATE %s SET %s = 'NEW' WHERE %s = 'r1'; COMMIT;", target, option.QuoteIdentifier(upd), option.QuoteIdentifier(key)))
 	p.Close()
 	o.Count("dia:" + name + ":" + encName(d.enc) + ":" + lbName(d.lb))
 	replay := func(extra map[string]interface{}) map[string]interface{} {
-		m := map[string]interface{}{"format": name, "dialect": d.sig(), "import_encoding": encName(importEnc), "original_hex": hex.EncodeToString(orig), "session_settings_opposite": sessionOpposite}
+		m := map[string]interface{}{"format": name, "dialect": d.sig(), "import_encoding": encName(importEnc), "named_by_table_object": diaViaTableObject, "original_hex": hex.EncodeToString(orig), "session_settings_opposite": sessionOpposite}
 		if tag != "" {
 			m["corpus"] = tag
 		}
@@ -887,7 +949,8 @@ func diaRun(o *hc.Out, dir string, t *table, d opts, withEnd bool, importEnc tex
 		return m
 	}
 	o.Case("c02.nop", "ok")
-	o.NonTrivial("dia|" + d.sig() + "|" + b01(withEnd) + "|" + encName(importEnc))
+	o.NonTrivial("dia|" + d.sig() + "|" + b01(withEnd) + "|" + encName(importEnc) + "|" + b01(diaViaTableObject) + b01(sessionOpposite))
+	o.Count("dia:encoding:" + encName(d.enc) + ":named_" + encName(importEnc) + ":object" + b01(diaViaTableObject))
 	if uerr != nil {
 		lawFail(o, "dialect:"+name+":update_failed", replay(map[string]interface{}{"error": firstLine(uerr.Error())}))
 		return
@@ -931,7 +994,7 @@ func diaRun(o *hc.Out, dir string, t *table, d opts, withEnd bool, importEnc tex
 		} else {
 			got := fromView(v)
 			switch {
-			case v.FileInfo.Encoding != d.enc:
+			case v.FileInfo.Encoding != concreteEncoding(d.enc):
 				what = "encoding"
 			case v.FileInfo.LineBreak != d.lb:
 				what = "line_break"
